@@ -1065,6 +1065,17 @@ func (c *Ctx) lookupTables(fn *ssa.Function) [][2]constant.Value {
 							continue
 						}
 						k, v := tp.TypesInfo.Types[kv.Key].Value, tp.TypesInfo.Types[kv.Value].Value
+						if inner, isLit := kv.Value.(*ast.CompositeLit); isLit && v == nil {
+							// a struct-valued entry {wireType: X} / {noOp: true}: the string member is the value, "" when there is none
+							v = constant.MakeString("")
+							for _, ie := range inner.Elts {
+								if ikv, ok := ie.(*ast.KeyValueExpr); ok {
+									if iv := tp.TypesInfo.Types[ikv.Value].Value; iv != nil && iv.Kind() == constant.String {
+										v = iv
+									}
+								}
+							}
+						}
 						if k != nil && v != nil {
 							out = append(out, [2]constant.Value{k, v})
 						}
